@@ -23,6 +23,7 @@ CODES = [b"", b"c1", b"c2", b"\x60\x00"]
 BALS = [0, 1, 5, 7, 100, 2**70, -30]
 NONCES = [0, 1, 2, 3, 2**64 - 1]
 
+EXTRA_PROOFS = []      # proof targets added as they are completed (Proofs/...)
 R_NAMES = {"ok": 0, "higher": 1, "toomuch": 2, "nojournal": 3, "panic": 4, "err": 5, "badop": 5, "hang": 6}
 
 
@@ -280,7 +281,7 @@ def run_groups(ctx, exe, name, groups_ops, mode, cfgs="cfg_subsets cfg_current",
         if o.get("bad"):
             ctx.broken("driver:ledger", "driver rejected a well-formed history")
             return None, None, None
-        bad_raw = [ob for op_, ob in zip(h, o["obs"]) if op_[0] == "raw" and ob.get("r") not in ("panic", "badop")]
+        bad_raw = [ob for op_, ob in zip(h, o["obs"]) if op_[0] == "raw" and ob.get("r") not in ("panic", "badop", "dead")]
         if bad_raw:
             ctx.broken("driver:ledger", "malformed op was not rejected: " + json.dumps(bad_raw[:1]))
             return None, None, None
@@ -454,3 +455,183 @@ def gen_soup(r, n):
         else:
             ops.append(r.choice([("dump",), ("version",)]))
     return ops
+
+
+# ---------------------------------------------------------------- corpus / replay files
+
+def op_from_json(j):
+    k = j["o"]
+
+    def b(x):
+        return None if x is None else bytes.fromhex(x)
+    if k in ("getbal", "getnonce", "getcode"):
+        return (k, j["a"])
+    if k in ("get", "query", "getcommitted"):
+        return (k, j["a"], b(j["k"]))
+    if k == "setbal":
+        return (k, j["a"], int(j["z"]))
+    if k == "setnonce":
+        return (k, j["a"], j["n"])
+    if k == "setcode":
+        return (k, j["a"], b(j.get("v")))
+    if k in ("set", "add"):
+        return (k, j["a"], b(j["k"]), b(j.get("v")))
+    if k in ("revert", "commit", "rollback"):
+        return (k, j["n"])
+    if k == "evict":
+        return (k, j["a"], j["n"], b(j["k"]))
+    return (k,)
+
+
+def group_to_json(group):
+    return [[op_json(o) for o in h] for h in group]
+
+
+def group_from_json(g):
+    return [[op_from_json(o) for o in h] for h in g]
+
+
+def load_corpus(pid):
+    out = []
+    for f in sorted(os.listdir(vlib.CORPUS)):
+        if f.startswith(pid + "_") and f.endswith(".json"):
+            d = json.load(open(os.path.join(vlib.CORPUS, f)))
+            if d.get("driver", "ledger") != "ledger":
+                continue
+            out.append((f, group_from_json(d["group"]), d.get("expect", "ok"),
+                        [bytes.fromhex(k) for k in d["keys"]] if "keys" in d else KEYS))
+    return out
+
+
+# ---------------------------------------------------------------- deciding a verdict
+
+def valid_utf8(b):
+    try:
+        b.decode("utf-8")
+        return True
+    except UnicodeDecodeError:
+        return False
+
+
+def classify(pb, group):
+    """pb = (code, detail) of the property predicate on the implementation trace.
+    Returns (kind, finding_id_or_None, text); kind in ok | known | violation"""
+    if pb[0] == 0:
+        return "ok", None, ""
+    d = pb[1]
+    if d >= 900000:
+        r = d - 900000
+        if r == 3:
+            return "known", "C10-root-noop-account-write", "root differs with the set of written account records"
+        if r == 1:
+            return "violation", None, "same previous root and same change set but different state roots"
+        return "violation", None, "different (previous root, change set) share a state root"
+    strict = d >= 500000
+    if strict:
+        d -= 500000
+    hi, step = d // 10000, d % 10000
+    ops = group[hi][:step + 1] if hi < len(group) else []
+    last = ops[-1] if ops else None
+    if strict:
+        if any(o[0] in ("set", "add") and o[3] == b"" for o in ops):
+            return "known", "C13-empty-exists-flag", "existence flag / query entry of an empty value depends on the layer"
+        return "violation", None, "existence flag or query content wrong at step %d of history %d (%r)" % (step, hi, last)
+    if last is not None and last[0] == "getcommitted":
+        return "known", "C13-getcommitted", "GetCommittedState does not return the committed value"
+    if any(o[0] == "setcode" and o[2] is None for o in ops):
+        return "known", "C13-setcode-nil", "SetCode(nil) keeps the old code"
+    if any(o[0] in ("set", "add") and not valid_utf8(o[2]) for o in ops) and any(o[0] == "rollback" for o in ops):
+        return "known", "C12-journal-nonutf8-key", "rollback with a storage key that is not valid UTF-8"
+    return "violation", None, "read disagrees with the specification at step %d of history %d (%r)" % (step, hi, last)
+
+
+def decide(ctx, exe, name, groups_ops, mode, known, keys=KEYS, nontrivial=None, do_shrink=True, expect=None):
+    """run the groups on both sides, judge, classify, report.  known: dict id -> finding.
+    expect: optional list (per group) of expected finding ids ("ok" or id) for corpus entries."""
+    vs, impl, groups = run_groups(ctx, exe, name, groups_ops, mode, keys=keys)
+    stats = dict(ok=0, known=0, violation=0, mismatch=0, domain=0)
+    if vs is None:
+        return stats
+    for gi, (g, v) in enumerate(zip(groups, vs)):
+        pb, corr, cfgi = v
+        gops = [impl[i]["ops"] for i in g]
+        kind, fid, text = classify(pb, gops)
+        key = json.dumps(group_to_json(gops), sort_keys=True)
+        nt = nontrivial(gops) if nontrivial else True
+        ctx.count(case_key=hash(key), nontrivial=nt,
+                  sample=dict(driver="ledger", group=group_to_json(gops)[:1], verdict=[list(pb), list(corr)]))
+        if expect is not None and expect[gi] not in ("ok", None) and kind == "ok":
+            ctx.notes.append("corpus entry %d: listed finding %s no longer reproduces" % (gi, expect[gi]))
+        if kind == "known" and fid in known:
+            stats["known"] += 1
+            ctx.known(fid, known[fid]["what"])
+        elif kind != "ok":
+            stats["violation"] += 1
+            rep_group = gops
+            if do_shrink and len(gops) == 1:
+                def fails(cand):
+                    v2, i2, g2 = run_groups(vlib.Ctx(ctx.pid, ctx.tier, ctx.seed), exe, name + "_sh", [[cand]], mode, keys=keys)
+                    if not v2:
+                        return False
+                    k2, f2, _ = classify(v2[0][0], [i2[0]["ops"]])
+                    return k2 == "violation" or (k2 == "known" and f2 not in known)
+                rep_group = [shrink(fails, gops[0])]
+            ctx.violation(text or ("unlisted finding " + str(fid)),
+                          dict(property=ctx.pid, driver="ledger", mode=mode, keys=[k.hex() for k in keys],
+                               group=group_to_json(rep_group), original=group_to_json(gops),
+                               verdict=dict(property_predicate=list(pb), correspondence=list(corr)),
+                               impl=[impl[i]["obs"] for i in g], what=text))
+        else:
+            stats["ok"] += 1
+        if corr[0] == 1 and kind == "ok":
+            stats["mismatch"] += 1
+            hi, step = corr[1] // 10000, corr[1] % 10000
+            ctx.broken("correspondence:judge_group(%s)" % name,
+                       "model and implementation differ at step %d of %s; impl=%s" % (
+                           step, json.dumps(group_to_json([gops[hi][:step + 1]])),
+                           json.dumps(impl[g[hi]]["obs"][step])[:400]))
+        elif corr[0] == 3:
+            stats["domain"] += 1
+    return stats
+
+
+def replay_file(ctx, path):
+    obj = json.load(open(path))
+    exe, err = vlib.build_harness("ledger")
+    if exe is None:
+        print(err)
+        return 1
+    keys = [bytes.fromhex(k) for k in obj["keys"]] if "keys" in obj else KEYS
+    group = group_from_json(obj["group"])
+    vs, impl, groups = run_groups(ctx, exe, "replay", [group], obj.get("mode", 7), keys=keys)
+    if not vs:
+        print("judge failed:", ctx.broken_list)
+        return 1
+    pb, corr, cfgi = vs[0]
+    kind, fid, text = classify(pb, [impl[i]["ops"] for i in groups[0]])
+    print(json.dumps(dict(property_predicate=list(pb), correspondence=list(corr), kind=kind, finding=fid, what=text,
+                          impl=[impl[i]["obs"] for i in groups[0]])))
+    return 0 if kind == "ok" and corr[0] == 0 else 1
+
+
+def known_open():
+    return {f["id"]: f for f in vlib.known_findings() if f.get("status") == "open"}
+
+
+def malformed_lines(r, n):
+    """raw junk for the driver's line parser and ops the driver must reject before touching the ledger"""
+    junk = ["{", "[]", "{\"ops\":5}", "null", "{\"addrs\":[\"zz\"],\"ops\":[]}", "\x00\x01", "{\"ops\":[{\"o\":7}]}"]
+    return [r.choice(junk) for _ in range(n)]
+
+
+def sprinkle_bad_ops(r, ops):
+    """insert ops that must be rejected without effect: unknown kind, account out of range, bad hex"""
+    bad = [{"o": "frobnicate"}, {"o": "set", "a": 99, "k": "61", "v": "62"}, {"o": "get", "a": -1, "k": "61"},
+           {"o": "set", "a": 0, "k": "zz", "v": "62"}, {"o": "setbal", "a": 0, "z": "12x"}, {"o": ""},
+           {"o": "evict", "a": 7, "n": 1, "k": ""}]
+    out = []
+    for o in ops:
+        if r.random() < 0.08:
+            out.append(("raw", r.choice(bad)))
+        out.append(o)
+    return out
